@@ -15,6 +15,9 @@ Tie:      four kinds of cases, each run through the REAL code of $IOFLO_REPO and
                   fixed clock for the Date header) -> bytes; Respondent parse of those bytes; optionally a SECOND
                   response behind it in the same buffer, parsed by the same Respondent driven the way Patron drives it:
                   answers to HEAD, 204, 304 followed by another response on the connection
+          session 2-4 requests of one REAL Patron to one REAL Valet on one keep-alive connection (socket-pair doubles):
+                  per request its bytes, what the server's reused Requestant parsed and the environment the WSGI
+                  application was called with; the model's connection (serveConnection) is asked after each request
           plus a malformed stream (raw bytes to the three parsers).
 Oracle:   the round trip stated directly on the implementation's output, independent of the model.
 """
@@ -96,7 +99,9 @@ class CHECK(core.Check):
             "connection parsed by one reused Respondent; request method GET/POST/PUT/HEAD; statuses incl. 204 and 304 with "
             "body-less applications — (Content-Length given / chunked / streamed "
             "until close / empty / HTTPError before and after the first write / return value / empty yields / pieces "
-            "exceeding Content-Length); ~12% malformed stream (raw bytes to parseChunk, parseLeader, the request and "
+            "exceeding Content-Length); sessions of 2-4 requests on one keep-alive connection whose methods, header sets "
+            "(growing and shrinking, auth/cookie/etag headers), query strings, bodies and content types differ; "
+            "~12% malformed stream (raw bytes to parseChunk, parseLeader, the request and "
             "response parsers). Non-trivial = a message was built and parsed back completely; distinct by content")
     TRUSTED = ["correspondence: the real packChunk/parseChunk/packHeader/parseLeader, Requester.build, Requestant, "
                "Valet.buildEnviron (called on a stand-in for the Valet), Responder (stand-in connection collecting .tx, "
@@ -129,7 +134,9 @@ class CHECK(core.Check):
                   "Respondent into the same status, reason, headers and body in each framing mode: Content-Length, chunked, "
                   "until close (C30_response_wire_length / _chunked / _until_close); the WSGI environment built from a parsed "
                   "request carries its method, path, query, scheme, body, Content-Type/Length and every header "
-                  "(C30_environ_consistent); however a Valet/Porter is constructed its scheme is https with TLS and port 443 "
+                  "(C30_environ_consistent); on a keep-alive connection the environment of request n is buildEnviron of request n "
+                  "whatever came before, and each of its keys is a per-request key or the HTTP_ key of a header request n "
+                  "itself carries (C30_environ_per_request); however a Valet/Porter is constructed its scheme is https with TLS and port 443 "
                   "or http without TLS and port 80, a supplied transport dictating which (C30_server_scheme), so that "
                   "wsgi.url_scheme is http or https, https exactly for TLS (C30_valet_environ_scheme); a response without a body "
                   "(HEAD, 204, 304) leaves what follows its head — after the chunk terminator if chunked — untouched for the "
@@ -295,6 +302,22 @@ class CHECK(core.Check):
         case["items"] = items
         return case
 
+    def _session(self, rng):
+        """2-4 requests on ONE keep-alive connection of one Patron to one Valet, with header sets, methods, bodies, query
+        strings and content types that differ from request to request (also shrinking ones)"""
+        reqs = []
+        for _ in range(rng.choice([2, 2, 3, 4])):
+            r = self._request(rng)
+            for k in ("kind", "host", "port", "scheme", "server", "client"):
+                r.pop(k, None)
+            if rng.random() < 0.35:
+                r["headers"] = []                          # a bare request after (or before) ones with headers
+            elif rng.random() < 0.5:
+                r["headers"].append([rng.choice(["X-Auth-Token", "If-None-Match", "Cookie", "X-Trace"]), "s",
+                                     rng.choice(["secret", "\"abc\"", "a=b; c=d", "1"])])
+            reqs.append(r)
+        return {"kind": "session", "scheme": rng.choice(["", "http"]), "requests": reqs}
+
     def _anycase(self, rng, name):
         return "".join(c.upper() if rng.random() < 0.5 else c.lower() for c in name)
 
@@ -320,7 +343,10 @@ class CHECK(core.Check):
                      b"0\r\n\r\n", b"Host: h", b"100 Continue", b"HTTP/1.1 204 No\r\n\r\n", b"Connection: close", b"zz"]
             raw = b"".join(rng.choice(frags) for _ in range(rng.choice([1, 3, 6, 12])))
             return {"kind": k, "raw": raw.hex(), "method": rng.choice(["GET", "HEAD"]), "closed": rng.random() < 0.4}
-        k = rng.choice(["chunk", "header", "request", "request", "request", "response", "response", "response"])
+        k = rng.choice(["chunk", "header", "request", "request", "request", "response", "response", "response", "session",
+                        "session"])
+        if k == "session":
+            return self._session(rng)
         if k == "chunk":
             n = rng.choice([0, 1, 2, 15, 16, 17, 255, 256, 3000, rng.randrange(300)])
             mode = rng.randrange(3)
@@ -380,6 +406,17 @@ class CHECK(core.Check):
                                "data": None, "fargs": None, "has_data": False,
                                "server": {"servant": servant, "scheme": sscheme, "port": port},
                                "client": {"via": via, "connector": connector, "scheme_given": given}}
+        base = {"pathq": [], "qargs": [], "headers": [], "body": "", "data": None, "fargs": None, "has_data": False}
+        rich = dict(base, method="POST", path="/login", qargs=[["next", "/home"]], body="7061796c6f6164",
+                    headers=[["X-Auth-Token", "s", "secret"], ["If-None-Match", "s", "\"abc\""], ["Content-Type", "s", "text/x-thing"]])
+        jsn = dict(base, method="PUT", path="/doc", data={"a": [1, 2]}, has_data=True, headers=[["X-Trace", "s", "1"]])
+        form = dict(base, method="POST", path="/form", fargs=[["a", "1"], ["b c", "d&e"]])
+        bare = dict(base, method="GET", path="/bare")
+        head = dict(base, method="HEAD", path="/h", qargs=[["q", "1"]])
+        for seq in ([rich, bare], [bare, rich, bare], [jsn, bare], [form, head, bare], [rich, jsn, form, bare], [jsn, form],
+                    [head, rich, head]):
+            for scheme in ("", "http"):
+                yield {"kind": "session", "scheme": scheme, "requests": [json.loads(json.dumps(r)) for r in seq]}
         for m in METHODS:
             for mode in ("none", "body"):
                 yield {"kind": "request", "host": "a.test", "port": 80, "scheme": "http", "method": m, "path": "/p/é q",
@@ -577,6 +614,8 @@ class CHECK(core.Check):
                     lines += ["skipped", "skipped"]
                 if case.get("server"):
                     lines.append(self._servers(case["server"]))
+            elif kind == "session":
+                self._run_session(case, lines, info)
             elif kind == "rawreq":
                 try:
                     lines.append(self._fmt_request(self._parse_request(hb(case["raw"]))))
@@ -590,6 +629,81 @@ class CHECK(core.Check):
                 except Exception as ex:
                     lines.append(err_name(ex))
         return lines, self._std_lines(calls), info
+
+    ENV_KEYS = ("wsgi.url_scheme", "REQUEST_METHOD", "SERVER_PROTOCOL", "SCRIPT_NAME", "PATH_INFO", "QUERY_STRING",
+                "CONTENT_TYPE", "CONTENT_LENGTH")
+
+    def _env_line(self, env):
+        keep = []
+        for k, v in env.items():
+            if k in self.ENV_KEYS or k.startswith("HTTP_"):
+                keep.append((k, "s:" + hx(v)))
+            elif k == "wsgi.input":
+                keep.append((k, "b:" + hx(v.read())))
+        return "ok %d%s" % (len(keep), "".join(" %s %s" % (hx(k), v) for k, v in keep))
+
+    def _run_session(self, case, lines, info):
+        """the REAL Patron and the REAL Valet (Valet.serviceReqs / serviceReps, one Requestant and one Responder per
+        connection, reused) over the socket-pair doubles: the requests go out one after the other on one keep-alive
+        connection; recorded per request: its bytes, what the server's Requestant parsed, and the environment the WSGI
+        application was called with"""
+        from ioflo.aio.http import clienting as hc, serving as hs
+        from ioflo.aid.odicting import odict
+        seen = []                      # per application call: (parsed request line, environ line, snapshot)
+        net = D.Net({"a.test": "10.0.0.1"})
+
+        def app(environ, start_response):
+            q = list(valet.reqs.values())[0]
+            snap = dict((k, v) for k, v in environ.items() if k != "wsgi.input")
+            line = self._env_line(environ)
+            snap["wsgi.input"] = hb(line.split(" b:")[1].split()[0]) if " b:" in line else b""
+            seen.append((self._fmt_request(q), line, snap, dict(q.headers.items()), q.method, q.path, q.query, bytes(q.body)))
+            start_response("200 OK", [("Content-Length", "2")])
+            return [b"ok"]
+
+        with D.patched(net):
+            S = D.server_class(net)
+            valet = hs.Valet(app=app, servant=S(ha=("10.0.0.1", 8080)), scheme=case["scheme"])
+            valet.open()
+            p = hc.Patron(hostname="a.test", port=8080)
+            p.open()
+            sent = []
+            tx = p.connector.tx
+            p.connector.tx = lambda data: (sent.append(bytes(data)), tx(data))[1]
+            try:
+                for i, r in enumerate(case["requests"]):
+                    hdrs = odict()
+                    for name, k, v in r["headers"]:
+                        hdrs[name] = v if k == "s" else (int(v) if k == "i" else hb(v))
+                    n_sent, n_seen, n_resp = len(sent), len(seen), len(p.responses)
+                    try:
+                        p.request(method=r["method"], path=r["path"], qargs=odict((k, v) for k, v in r["qargs"]), headers=hdrs,
+                                  body=hb(r["body"]), data=r["data"] if r["has_data"] else None,
+                                  fargs=None if r["fargs"] is None else odict((k, v) for k, v in r["fargs"]))
+                        for _ in range(12):
+                            p.serviceAll()
+                            valet.serviceAll()
+                            if len(p.responses) > n_resp:
+                                break
+                    except Exception as ex:
+                        lines += [err_name(ex), "skipped", "skipped"]
+                        break
+                    if len(sent) != n_sent + 1:
+                        lines += ["HARNESS-EXC %d messages sent for request %d" % (len(sent) - n_sent, i), "skipped", "skipped"]
+                        break
+                    lines.append("ok %s" % hx(sent[-1]))
+                    if len(seen) != n_seen + 1:
+                        lines += ["need", "need"]         # the server did not hand the request to the application
+                        break
+                    lines += [seen[-1][0], seen[-1][1]]
+                info["sent"], info["seen"] = sent, seen
+                info["connections"] = len([e for e in net.log if e[0] == "CONNECT"])
+            finally:
+                try:
+                    valet.servant.closeAllIx()
+                except Exception:
+                    pass
+                net.shutdown()
 
     @staticmethod
     def _until_close(wire):
@@ -789,6 +903,12 @@ class CHECK(core.Check):
                 sv = case["server"]
                 svt = "~" if sv["servant"] is None else ("1" if sv["servant"] == "tls" else "0")
                 out.append("server %s %s %s" % (svt, hx(sv["scheme"]), "~" if sv["port"] is None else sv["port"]))
+        elif kind == "session":
+            sent = info.get("sent", [])
+            for i, msg in enumerate(sent):
+                out.append("parsereq %s" % hx(msg))
+                # the model's connection (`serveConnection`) after requests 0..i — proved to depend on request i only
+                out.append("connenviron 0 %s %s" % (hx(case["scheme"]), " ".join(hx(m) for m in sent[:i + 1])))
         elif kind == "rawreq":
             out.append("parsereq %s" % (case["raw"] or "-"))
         elif kind == "response":
@@ -844,6 +964,19 @@ class CHECK(core.Check):
                 out[2] = out[1]
             if server is not None:
                 out.append(server)
+        if case["kind"] == "session":
+            # the implementation reports per request: the bytes (an input of the model), the parse, the environ
+            key = core.case_key(case)
+            info = self._trace.get(key, (None, None, {}))[2]
+            impl_lines = self._trace.get(key, (None, [], None))[1]
+            res, k2 = [], 0
+            for j in range(0, len(impl_lines), 3):
+                if impl_lines[j].startswith("ok ") and k2 + 1 < len(out):
+                    res += [impl_lines[j], out[k2], out[k2 + 1]]
+                    k2 += 2
+                else:
+                    res += impl_lines[j:j + 3]
+            return res
         if case["kind"] == "response":
             if len(out) < 2:
                 out.append("skipped")
@@ -880,6 +1013,8 @@ class CHECK(core.Check):
             return self._oracle_request(case, out)
         if kind == "response":
             return self._oracle_response(case, out)
+        if kind == "session":
+            return self._oracle_session(case, out)
         return None                    # malformed stream: only model == implementation is demanded
 
     @staticmethod
@@ -981,6 +1116,75 @@ class CHECK(core.Check):
                 return "environ lacks header %r" % k
         return None
 
+    def _oracle_session(self, case, out):
+        """each request of the connection arrives as itself and the application is shown an environment that speaks
+        of THIS request only: nothing of an earlier request on the connection is carried over, on either side"""
+        info = self._trace.get(core.case_key(case), (None, None, {}))[2]
+        seen = info.get("seen") or []
+        if info.get("connections", 1) != 1:
+            return "the requests went over %d connections, not one keep-alive connection" % info["connections"]
+        scheme = "http"
+        for i, r in enumerate(case["requests"]):
+            lines = out[3 * i:3 * i + 3]
+            if len(lines) < 3 or not lines[0].startswith("ok"):
+                return "request %d could not be built/sent: %s" % (i, lines[:1])
+            if not lines[1].startswith("ok") or not lines[2].startswith("ok") or i >= len(seen):
+                return "request %d did not reach the application: %s / %s" % (i, lines[1][:40], lines[2][:40])
+            _pl, _el, env, qh, qmethod, qpath, qquery, qbody = seen[i]
+            method = r["method"].upper()
+            path = r["path"].partition("?")[0]
+            if qmethod != method or qpath != path:
+                return "request %d: %s %r parsed as %s %r" % (i, method, path, qmethod, qpath)
+            want_q = [(k, v) for k, v in r["pathq"]] + [(k, v) for k, v in r["qargs"]]
+            got_q = parse_qsl(qquery, keep_blank_values=True)
+            if len(got_q) != len(want_q) or dict(got_q) != dict(want_q):
+                return "request %d: query args %r parsed as %r" % (i, want_q, got_q)
+            # headers: the given ones arrive, and nothing else but what the builder adds for THIS request
+            given = {}
+            for name, k, v in r["headers"]:
+                given[name.lower()] = v if k == "s" else (str(v) if k == "i" else hb(v).decode("latin-1"))
+            bodied = method != "GET" and (r["has_data"] or r["fargs"] is not None)
+            for k, v in given.items():
+                if k == "content-type" and bodied:
+                    continue
+                if qh.get(k) != v:
+                    return "request %d: header %r: %r arrives as %r" % (i, k, v, qh.get(k))
+            extra = set(qh) - set(given) - {"host", "accept-encoding", "content-length", "content-type"}
+            if extra:
+                return "request %d arrives with headers it was not given: %s" % (i, sorted(extra))
+            if "content-type" in qh and "content-type" not in given and not bodied:
+                return "request %d arrives with a Content-Type (%r) it was not given" % (i, qh["content-type"])
+            if method == "GET":
+                if qbody:
+                    return "request %d: GET arrives with a body" % i
+            elif r["has_data"]:
+                try:
+                    if json.loads(qbody.decode("utf-8")) != r["data"]:
+                        return "request %d: JSON data %r arrives as %r" % (i, r["data"], qbody[:60])
+                except ValueError:
+                    return "request %d: JSON data %r arrives as %r" % (i, r["data"], qbody[:60])
+            elif r["fargs"] is not None:
+                if parse_qsl(qbody.decode("utf-8"), keep_blank_values=True) != [(k, v) for k, v in r["fargs"]]:
+                    return "request %d: form args %r arrive as %r" % (i, r["fargs"], qbody[:60])
+            elif qbody != hb(r["body"]):
+                return "request %d: body %r arrives as %r" % (i, hb(r["body"])[:30], qbody[:30])
+            # the environment: a function of this request (and the connection's constants) only
+            want = {"REQUEST_METHOD": method, "PATH_INFO": path, "QUERY_STRING": qquery, "wsgi.url_scheme": scheme,
+                    "SERVER_PROTOCOL": "HTTP/1.1", "CONTENT_TYPE": qh.get("content-type", ""),
+                    "CONTENT_LENGTH": str(len(qbody)), "wsgi.input": qbody}
+            for k, v in want.items():
+                if env.get(k) != v:
+                    return "request %d: environ[%r] = %r, the request says %r" % (i, k, env.get(k), v)
+            http_keys = {"HTTP_" + k.replace("-", "_").upper(): v for k, v in qh.items()}
+            for k, v in http_keys.items():
+                if env.get(k) != v:
+                    return "request %d: environ lacks header %s = %r (has %r)" % (i, k, v, env.get(k))
+            stale = sorted(k for k in env if k.startswith("HTTP_") and k not in http_keys)
+            if stale:
+                return "request %d: environ carries %s, which this request did not send (an earlier request on the " \
+                       "connection did)" % (i, stale)
+        return None
+
     def _oracle_response(self, case, out):
         key = core.case_key(case)
         info = self._trace.get(key, (None, None, {}))[2]
@@ -1076,12 +1280,19 @@ class CHECK(core.Check):
             return out[0].startswith("ok") and out[1].startswith("ok")
         if k == "response":
             return out[0].startswith("ok 1") and out[1].startswith("ok") and (len(out) < 4 or out[3].startswith("ok"))
+        if k == "session":
+            return len(out) == 3 * len(case["requests"]) and all(l.startswith("ok") for l in out)
         return False
 
     def bucket(self, case, out):
         k = case["kind"]
         if k == "response":
             return "response:" + ("HEAD:" if case["method"] == "HEAD" else "") + case["status"].split()[0][:1] + ("+next:" if case.get("next") else ":") + case["mode"] + ("" if out[-1].startswith("ok") else ":" + out[-1].split()[0] + out[-1][3:12])
+        if k == "session":
+            sizes = [len(r["headers"]) for r in case["requests"]]
+            shrinks = any(b < a for a, b in zip(sizes, sizes[1:]))
+            return "session:%d%s%s" % (len(case["requests"]), ":shrinking-headers" if shrinks else "",
+                                       "" if all(l.startswith("ok") for l in out) else ":" + [l for l in out if not l.startswith("ok")][0][:12])
         if k == "request":
             mode = "data" if case["has_data"] else ("fargs" if case["fargs"] is not None else ("body" if case["body"] else "none"))
             return "request:" + mode
@@ -1109,6 +1320,17 @@ class CHECK(core.Check):
                     d = json.loads(json.dumps(case)); del d["fargs"][i]; yield d
             if len(case["path"]) > 2 and not case["pathq"]:
                 d = json.loads(json.dumps(case)); d["path"] = "/p"; yield d
+        elif k == "session":
+            n = len(case["requests"])
+            for i in range(n):
+                if n > 1:
+                    d = json.loads(json.dumps(case)); del d["requests"][i]; yield d
+            for i, r in enumerate(case["requests"]):
+                sub = dict(r, kind="request")
+                for cand in self.shrink_candidates(sub):
+                    if cand.get("kind") == "request":
+                        c2 = dict(cand); c2.pop("kind", None)
+                        d = json.loads(json.dumps(case)); d["requests"][i] = c2; yield d
         elif k == "response":
             if case.get("next"):
                 d = json.loads(json.dumps(case)); del d["next"]; yield d
